@@ -437,7 +437,8 @@ def tasks(tier):
     if not q:
         for f, g in itertools.combinations(['kex', 'key', 'enc', 'mac'], 2):
             T.append(ListEval({f: ((X, X), (X, X)), g: ((X, X), (X,))}))
-        T.append(ListEval({'kex': ((X,), (X,)), 'key': ((X,), (X,)), 'enc': ((X,), (X,)), 'mac': ((X,), (X,)), 'comp': ((X,), (X,))}))
+        for trio in (('kex', 'key', 'enc'), ('enc', 'mac', 'comp'), ('kex', 'mac', 'comp')):
+            T.append(ListEval({f: ((X,), (X,)) for f in trio}))
     for pc in CA_TYPES:
         for kc in CA_TYPES:
             if q and pc and kc and pc != kc and (pc, kc) != ('ssh-rsa', 'ssh-ed25519'):
@@ -487,7 +488,7 @@ META = {
     'bounds': {'quick': 'policy and peer lists of 0..3 symbolic names (1 char over the RFC 4251 name alphabet; strict-kex marker literals in chosen positions) for each of '
                         'the five list fields, both allow_* flags symbolic; optional host-key lists <=2; all 10 pairs of fields at 1x1; host-key/CA/DH sizes as all '
                         'integers of 1..4 (thorough: 5) decimal digits for 4x4 CA type combinations; banner strings',
-               'thorough': 'plus 3x3 lists everywhere, 2-char names, 2x2 pair interactions, all five fields at once'},
+               'thorough': 'plus 3x3 lists everywhere, 2-char names, 2x2 pair interactions, three fields at once'},
     'outside': ['lists longer than 3', 'policies with several size entries at once (entries are evaluated independently in a loop)'],
     'stubs': [],
     'assumptions': ['a fresh Policy object per evaluation (glue check O10)'],
